@@ -255,7 +255,7 @@ type LogBackendMap = map[string]*configpb.LogBackend
 func BuildLogBackendMap(lbs *configpb.LogBackendSet) (LogBackendMap, error) {
 	lbm := make(LogBackendMap)
 	specs := make(map[string]bool)
-	for _, be := range lbs.Backend {
+	for _, be := range lbs.GetBackend() {
 		if len(be.Name) == 0 {
 			return nil, fmt.Errorf("empty backend name: %v", be)
 		}
